@@ -16,18 +16,18 @@ COQ_AGREE = 'agree'
 COQ_SHARD = 150
 REPLAY_KIND = 'input'
 EXHAUSTIVE = {'quick': False, 'thorough': False}
-RULE = ('seeded random histories of 5..25 operations (thorough: up to 40) over one eager class with two Int columns on a FILE-backed '
-        'sqlite database (timeout 0): create/get/select/count/read/assign/destroySelf/expire/sync/drop-reference/cull on the parent '
+RULE = ('seeded random histories of 5..25 operations (thorough: up to 40) over one class with two Int columns on a FILE-backed '
+        'sqlite database (timeout 0): create/get/select/count/read/assign/destroySelf/expire/sync/syncUpdate/drop-reference/cull on the parent '
         'connection and on a Transaction (connection=trans and trans.Cls access), commit, commit(close=True), rollback, begin, use after '
-        'finish; every history has at least two commit/rollback points; cache=True/False, cull frequency 100/2..6; one third of the histories '
-        'start from a motif (the witnesses of the findings and near misses of them); half of them end with a sweep that reads every held '
+        'finish; every history has at least two commit/rollback points; cache=True/False, cull frequency 100/2..6; the class is eager or lazyUpdate (35%: assignments queued on the instance, on either side, also while the other side changes or deletes the row; commit/rollback with assignments queued) and column b is UNIQUE or not (30%: creates, assignments and syncUpdates the database refuses, inside the transaction after earlier work and on the parent connection); one third of the histories '
+        'start from a motif (the witnesses of the findings and near misses of them; parent-side instances with queued assignments at commit; refused statements in the middle of a transaction); half of them end with a sweep that reads every held '
         'instance and selects on both sides.  Non-trivial = at least one commit or rollback happened while the transaction held uncommitted '
         'changes and a parent-side instance was held; distinct = distinct (configuration, operation list).')
 EXPLANATION = ('Theorems C07_* (Coq, all histories) over Model/Txn.v, a hand model of Transaction/ConnWrapper/SQLObject instance life-cycle/'
                'CacheFactory for a parent connection and one transaction with sqlite locking; correspondence: after EVERY operation the '
                'model state evaluated by vm_compute is compared with the real SQLObject (outcome, SQL log with sending connection, committed '
                'table via a third DB-API connection, the transaction\'s private view, _deletedCache/_obsolete, passive state of every held '
-               'instance, both caches); the oracle judges the property on the observations alone.')
+               'instance incl. its queued assignments, both caches); the oracle judges the property on the observations alone (a queued value says nothing about the database: freshness is judged on the columns with nothing queued; a lazy assignment sends nothing; syncUpdate writes exactly the queue; a refused statement changes nothing and leaves the transaction open on the view it had).')
 TRUSTED_BASE = [
     'Coq 8.16.1 kernel + vm_compute (examples, correspondence); no native_compute',
     'Model/Txn.v is hand-written after dbconnection.py (Transaction, ConnWrapper), main.py (get/_init/_SO_loadValue/_SO_setValue/sync/expire/'
@@ -37,7 +37,10 @@ TRUSTED_BASE = [
     'transaction\'s connection, None elsewhere) and timeout 0: the transaction\'s first INSERT/UPDATE/DELETE takes the write lock (also when '
     'no row matched) until COMMIT/ROLLBACK, a parent write meanwhile fails at once with OperationalError, parent reads see the committed '
     'table, AUTOINCREMENT counter is rolled back with the transaction; CPython reference counting; dict insertion order',
-    'fixture: one eager class, two nullable Int columns, no constraints/joins/listeners/lazyUpdate; one transaction object per history; '
+    'fixture: one class with two nullable Int columns, per case eager or lazyUpdate and with or without UNIQUE on column b; no joins/listeners; '
+    'assignments are single-attribute (o.col = v; .set(**kw) is not in the operation set, so sqlmeta.dirty is "something is queued" -- checked on '
+    'every observation); sqlite: a statement refused by a UNIQUE constraint has taken the write lock (in_transaction stays true on the '
+    'transaction\'s connection, parent writes are refused until commit/rollback) and consumes no id; one transaction object per history; '
     'raw SQL through trans.query(), deleteMany and other connection-level writes are outside the operation set',
     'a read of a cached attribute is taken to return the cached value (the oracle reads __dict__ after every step instead of calling the '
     'getter, because a getter call on an expired instance reloads it and would change the history); explicit read operations are checked too',
@@ -48,20 +51,23 @@ TRUSTED_BASE = [
 
 TABLE = 'verif_c07_row'
 COLS = ['a', 'b']
-_cls = None
+_classes = {}
 _counter = [0]
 
 
-def row_class():
-    global _cls
-    if _cls is None:
+def row_class(lazy=False, uniq=False):
+    """the fixture class: two nullable Int columns; options of the case: lazyUpdate, UNIQUE on column b"""
+    key = (bool(lazy), bool(uniq))
+    if key not in _classes:
         from sqlobject import SQLObject, IntCol
 
-        class VerifC07Row(SQLObject):
-            a = IntCol(default=None)
-            b = IntCol(default=None)
-        _cls = VerifC07Row
-    return _cls
+        class sqlmeta:
+            table = TABLE
+            lazyUpdate = key[0]
+        name = 'VerifC07Row' + ('L' if key[0] else '') + ('U' if key[1] else '')
+        _classes[key] = type(name, (SQLObject,), {'sqlmeta': sqlmeta, 'a': IntCol(default=None),
+                                                  'b': IntCol(default=None, unique=key[1])})
+    return _classes[key]
 
 
 # ------------------------------------------------------------------ generation
@@ -90,8 +96,29 @@ MOTIFS = [
 ]
 
 
+# motifs for a lazyUpdate class: a parent-side instance with a queued assignment while the transaction changes / deletes its row
+LAZY_MOTIFS = [
+    [['create', 'P', False, 1, 1], ['get', 'T', False, 1], ['set', 0, 0, 7], ['set', 1, 1, 5], ['syncupdate', 1], ['commit', False],
+     ['read', 0, 1], ['read', 0, 0], ['syncupdate', 0], ['read', 0, 1]],
+    [['create', 'P', False, 1, 1], ['get', 'T', False, 1], ['set', 0, 0, 7], ['destroy', 1], ['commit', False], ['get', 'P', False, 1]],
+    [['create', 'P', False, 1, 1], ['get', 'T', False, 1], ['set', 0, 1, 7], ['set', 1, 0, 5], ['sync', 1], ['commit', True], ['select', 'P', False, 0], ['read', 0, 0]],
+    [['create', 'P', False, 1, 1], ['get', 'T', False, 1], ['set', 1, 0, 5], ['rollback'], ['begin'], ['read', 1, 0], ['syncupdate', 1], ['commit', False]],
+    [['create', 'P', False, 1, 1], ['expire', 0], ['set', 0, 0, 4], ['read', 0, 1], ['syncupdate', 0], ['get', 'T', False, 1], ['set', 2, 1, 3], ['sync', 2], ['commit', False], ['read', 0, 0]],
+    [['create', 'P', False, 1, 1], ['get', 'T', False, 1], ['set', 1, 0, 5], ['set', 1, 1, 6], ['select', 'T', False, None], ['syncupdate', 1], ['set', 0, 0, 9], ['syncupdate', 0],
+     ['commit', False], ['syncupdate', 0], ['read', 0, 1]],
+]
+# ... for a UNIQUE column b: statements the database refuses, inside and outside the transaction
+UNIQ_MOTIFS = [
+    [['create', 'P', False, 1, 1], ['create', 'T', False, 2, 2], ['create', 'T', False, 3, 1], ['create', 'T', False, 4, 4], ['commit', False], ['select', 'P', False, None]],
+    [['create', 'P', False, 1, 1], ['create', 'P', False, 2, 2], ['get', 'T', False, 1], ['set', 2, 0, 9], ['set', 2, 1, 2], ['set', 2, 1, 3], ['commit', False], ['read', 0, 0]],
+    [['create', 'P', False, 1, 1], ['create', 'T', False, 5, 5], ['create', 'T', False, 6, 1], ['rollback'], ['begin'], ['create', 'P', False, 7, 1], ['create', 'P', False, 7, 7]],
+    [['create', 'P', False, 1, 1], ['get', 'T', False, 1], ['create', 'T', False, 2, 1], ['create', 'P', False, 3, 3], ['commit', True], ['create', 'P', False, 3, 3]],
+]
+
+
 def gen_history(rng, maxlen=25, minlen=5):
-    cfg = {'cache': rng.random() < 0.55, 'freq': rng.choice([100, 100, 2, 3, 4, 6]), 'frac': rng.choice([2, 2, 3])}
+    cfg = {'cache': rng.random() < 0.55, 'freq': rng.choice([100, 100, 2, 3, 4, 6]), 'frac': rng.choice([2, 2, 3]),
+           'lazy': rng.random() < 0.35, 'uniq': rng.random() < 0.3}
     n = rng.randint(minlen, maxlen)
     ops, sides = [], []           # sides[h] = side of slot h as far as the generator knows
     nrows = [0]
@@ -125,10 +152,15 @@ def gen_history(rng, maxlen=25, minlen=5):
         ops.append(op)
 
     if rng.random() < 0.34:
-        for op in rng.choice(MOTIFS):
+        pool = MOTIFS
+        if cfg['lazy'] and rng.random() < 0.6:
+            pool = LAZY_MOTIFS
+        elif cfg['uniq'] and rng.random() < 0.6:
+            pool = UNIQ_MOTIFS
+        for op in rng.choice(pool):
             add(list(op))
     W = [('create', 10), ('get', 12), ('select', 7), ('count', 2), ('read', 14), ('set', 16), ('destroy', 5), ('expire', 4),
-         ('sync', 3), ('drop', 7), ('cull', 2), ('commit', 9), ('rollback', 6), ('begin', 2)]
+         ('sync', 3), ('drop', 7), ('cull', 2), ('commit', 9), ('rollback', 6), ('begin', 2), ('syncupdate', 7 if cfg['lazy'] else 1)]
     names = [w[0] for w in W]
     weights = [w[1] for w in W]
     while len(ops) < n:
@@ -137,7 +169,7 @@ def gen_history(rng, maxlen=25, minlen=5):
         if not tx_active[0] and rng.random() < 0.5:
             add(['begin'])
             continue
-        if t in ('read', 'set', 'destroy', 'expire', 'sync', 'drop') and not any(s is not None for s in sides) and rng.random() < 0.9:
+        if t in ('read', 'set', 'destroy', 'expire', 'sync', 'syncupdate', 'drop') and not any(s is not None for s in sides) and rng.random() < 0.9:
             t = rng.choice(['create', 'get', 'select'])
         if t == 'create':
             add(['create', pick_side(), via, rng.choice(VALS), rng.choice(VALS)])
@@ -151,7 +183,7 @@ def gen_history(rng, maxlen=25, minlen=5):
             add(['read', slot_of(), rng.randint(0, 1)])
         elif t == 'set':
             add(['set', slot_of('T' if rng.random() < 0.6 else None), rng.randint(0, 1), rng.choice(VALS)])
-        elif t in ('destroy', 'expire', 'sync', 'drop'):
+        elif t in ('destroy', 'expire', 'sync', 'syncupdate', 'drop'):
             add([t, slot_of()])
         elif t == 'cull':
             add(['cull', pick_side()])
@@ -187,6 +219,11 @@ def corpus():
     for cache in (True, False):
         for m in MOTIFS:
             out.append({'cfg': {'cache': cache, 'freq': 100, 'frac': 2}, 'ops': [list(o) for o in m]})
+        for m in MOTIFS + LAZY_MOTIFS:
+            out.append({'cfg': {'cache': cache, 'freq': 100, 'frac': 2, 'lazy': True, 'uniq': False}, 'ops': [list(o) for o in m]})
+        for m in UNIQ_MOTIFS:
+            for lz in (False, True):
+                out.append({'cfg': {'cache': cache, 'freq': 100, 'frac': 2, 'lazy': lz, 'uniq': True}, 'ops': [list(o) for o in m]})
     return out
 
 
@@ -205,9 +242,13 @@ def abstract_sql(q, side):
     q = q.strip()
     if re.match(r'INSERT INTO %s ' % TABLE, q):
         return ['insert', side]
-    m = re.match(r'UPDATE %s SET (\w+) = \(.*\) WHERE id = \((-?\d+)\)$' % TABLE, q)
-    if m and m.group(1) in COLS:
-        return ['update', side, int(m.group(2)), COLS.index(m.group(1))]
+    m = re.match(r'UPDATE %s SET ((?:\w+ = \([^()]*\)(?:, )?)+) WHERE id = \((-?\d+)\)$' % TABLE, q)
+    if m:
+        cols = re.findall(r'(\w+) = \(', m.group(1))
+        if all(c in COLS for c in cols):
+            if len(cols) == 1:
+                return ['update', side, int(m.group(2)), COLS.index(cols[0])]
+            return ['updatecols', side, int(m.group(2)), [COLS.index(c) for c in cols]]
     m = re.match(r'DELETE FROM %s WHERE id = \((-?\d+)\)$' % TABLE, q)
     if m:
         return ['delete', side, int(m.group(1))]
@@ -222,7 +263,7 @@ def abstract_sql(q, side):
 
 
 EXC = {'SQLObjectNotFound': 'ENotFound', 'OperationalError': 'EOperational', 'AssertionError': 'EAssertion',
-       'AttributeError': 'EAttribute', 'IndexError': 'EBadHandle'}
+       'AttributeError': 'EAttribute', 'IndexError': 'EBadHandle', 'DuplicateEntryError': 'EDuplicate'}
 
 
 def run_history(case, workdir):
@@ -230,7 +271,7 @@ def run_history(case, workdir):
     import sqlite3
     from sqlobject.sqlite.sqliteconnection import SQLiteConnection
     cfg = case['cfg']
-    cls = row_class()
+    cls = row_class(cfg.get('lazy'), cfg.get('uniq'))
     fn = os.path.join(workdir, 't.db')
     conn = SQLiteConnection(fn, timeout=0, cache=bool(cfg['cache']))
     conn.cache.kw.update(cullFrequency=cfg['freq'], cullFraction=cfg['frac'])
@@ -311,7 +352,7 @@ def run_history(case, workdir):
             if op[1] == 'T':
                 return ['num', cls.select(connection=tx).count()]
             return ['num', cls.select().count()]
-        if t in ('read', 'set', 'destroy', 'expire', 'sync'):
+        if t in ('read', 'set', 'destroy', 'expire', 'sync', 'syncupdate'):
             o = slots[op[1]] if op[1] < len(slots) else None
             if o is None:
                 raise IndexError('bad handle')
@@ -325,6 +366,8 @@ def run_history(case, workdir):
                 o.expire()
             elif t == 'sync':
                 o.sync()
+            elif t == 'syncupdate':
+                o.syncUpdate()
             return ['none']
         if t == 'drop':
             if op[1] < len(slots):
@@ -358,7 +401,9 @@ def run_history(case, workdir):
         side = 'T' if d.get('_connection') is tx else 'P'
         vals = [['v', d['_SO_val_' + c]] if ('_SO_val_' + c) in d else ['absent'] for c in COLS]
         reg = C(side).cache.tryGet(o.id, cls) is o
-        return [side, o.id, vals, bool(o.sqlmeta.expired), bool(o.sqlmeta._obsolete), bool(reg)]
+        cv = d.get('_SO_createValues') or {}
+        pend = [['v', cv[c]] if c in cv else ['absent'] for c in COLS]
+        return [side, o.id, vals, bool(o.sqlmeta.expired), bool(o.sqlmeta._obsolete), bool(reg), pend, bool(o.sqlmeta.dirty)]
 
     def cache_view(c):
         f = c.cache.caches.get(cls.__name__)
@@ -452,8 +497,8 @@ def cop(op):
         return '(ORead %d%%nat %d%%nat)' % (op[1], op[2])
     if t == 'set':
         return '(OSet %d%%nat %d%%nat %s)' % (op[1], op[2], cval(op[3]))
-    if t in ('destroy', 'expire', 'sync', 'drop'):
-        return '(%s %d%%nat)' % ({'destroy': 'ODestroy', 'expire': 'OExpire', 'sync': 'OSync', 'drop': 'ODrop'}[t], op[1])
+    if t in ('destroy', 'expire', 'sync', 'syncupdate', 'drop'):
+        return '(%s %d%%nat)' % ({'destroy': 'ODestroy', 'expire': 'OExpire', 'sync': 'OSync', 'syncupdate': 'OSyncUpdate', 'drop': 'ODrop'}[t], op[1])
     if t == 'cull':
         return '(OCull %s)' % cside(op[1])
     if t == 'commit':
@@ -495,6 +540,8 @@ def cstmt(s):
         return '(SInsert %s)' % cside(s[1])
     if t == 'update':
         return '(SUpdate %s %s %d%%nat)' % (cside(s[1]), z(s[2]), s[3])
+    if t == 'updatecols':
+        return '(SUpdateCols %s %s [%s])' % (cside(s[1]), z(s[2]), '; '.join('%d%%nat' % c for c in s[3]))
     if t == 'delete':
         return '(SDelete %s %s)' % (cside(s[1]), z(s[2]))
     if t == 'selectone':
@@ -514,8 +561,9 @@ def cview(v):
     if v is None:
         return 'None'
     vals = '[%s]' % '; '.join('None' if x[0] == 'absent' else '(Some %s)' % cval(x[1]) for x in v[2])
-    return ('(Some {| v_side := %s; v_id := %s; v_vals := %s; v_expired := %s; v_obsolete := %s; v_reg := %s |})'
-            % (cside(v[0]), z(v[1]), vals, cb(v[3]), cb(v[4]), cb(v[5])))
+    pend = '[%s]' % '; '.join('None' if x[0] == 'absent' else '(Some %s)' % cval(x[1]) for x in (v[6] if len(v) > 6 else [['absent']] * len(COLS)))
+    return ('(Some {| v_side := %s; v_id := %s; v_vals := %s; v_expired := %s; v_obsolete := %s; v_reg := %s; v_pending := %s |})'
+            % (cside(v[0]), z(v[1]), vals, cb(v[3]), cb(v[4]), cb(v[5]), pend))
 
 
 def ccache(c):
@@ -533,7 +581,8 @@ def cobs(o):
 
 
 def ccfg(cfg, wrap):
-    return '{| doCache := %s; cullFreq := %d; cullFrac := %d; wrapOk := %s |}' % (cb(cfg['cache']), cfg['freq'], cfg['frac'], cb(wrap))
+    return '{| doCache := %s; cullFreq := %d; cullFrac := %d; wrapOk := %s; lazy := %s; uniq := %s |}' % (
+        cb(cfg['cache']), cfg['freq'], cfg['frac'], cb(wrap), cb(cfg.get('lazy')), cb(cfg.get('uniq')))
 
 
 def coq_case(case, obs):
@@ -550,9 +599,21 @@ def rowmap(tab):
     return {r[0]: r[1] for r in tab[0]}
 
 
-def cached(v):
+def cached_all(v):
     """{column: value} of the attributes the instance caches"""
     return {c: x[1] for c, x in enumerate(v[2]) if x[0] == 'v'}
+
+
+def queued(v):
+    """{column: value} of the assignments a lazyUpdate instance has queued and not written"""
+    return {c: x[1] for c, x in enumerate(v[6]) if x[0] == 'v'} if len(v) > 6 else {}
+
+
+def cached(v):
+    """{column: value} of the cached attributes that speak about the database: those of columns with nothing queued (a queued
+    value is what the program assigned and has not written yet)"""
+    q = queued(v)
+    return {c: x for c, x in cached_all(v).items() if c not in q}
 
 
 def fresh(v, rows):
@@ -562,6 +623,13 @@ def fresh(v, rows):
     if r is None:
         return not cv
     return all(r[c] == x for c, x in cv.items())
+
+
+def view_rows(obs, side):
+    """the rows the connection of that side reads"""
+    if side == 'T' and obs['pending'] is not None:
+        return rowmap(obs['pending'])
+    return rowmap(obs['committed'])
 
 
 def op_side(op, before):
@@ -590,7 +658,7 @@ def failures(case, obs):
     before = INITIAL
     created_in_tx = []          # ids created through the transaction since its last commit / rollback
     for k, (op, cur) in enumerate(zip(case['ops'], steps)):
-        f = judge(k, op, before, cur, created_in_tx)
+        f = judge(k, op, before, cur, created_in_tx, case.get('cfg'))
         if f:
             yield f
         t = op[0]
@@ -607,11 +675,54 @@ def fail(k, op, what, **kw):
     return d
 
 
-def judge(k, op, before, cur, created_in_tx):
+def judge(k, op, before, cur, created_in_tx, cfg=None):
+    cfg = cfg or {}
     t = op[0]
     side = op_side(op, before)
     rows0, rows1 = rowmap(before['committed']), rowmap(cur['committed'])
     out = cur['out']
+    for h, v in enumerate(cur['slots']):
+        if v is not None and len(v) > 7 and v[7] != bool(queued(v)):
+            return fail(k, op, 'sqlmeta.dirty is not "something is queued"', kind='harness_assumption', slot=h, instance=v)
+    # ---- a lazyUpdate class: an assignment is queued on the instance, nothing is sent; syncUpdate writes exactly the queue
+    if cfg.get('lazy') and t == 'set' and side in ('P', 'T'):
+        if out != ['ret', ['none']] or cur['log'] or cur['committed'] != before['committed'] or cur['pending'] != before['pending']:
+            return fail(k, op, 'an assignment to a lazyUpdate instance did more than queue the value', kind='lazy_set', out=out, log=cur['log'])
+    if t == 'syncupdate' and side in ('P', 'T') and out[0] == 'ret':
+        v0, v1 = before['slots'][op[1]], cur['slots'][op[1]]
+        q0 = queued(v0)
+        was = view_rows(before, side).get(v0[1])
+        now = view_rows(cur, side).get(v0[1])
+        want = None if was is None else [q0.get(c, x) for c, x in enumerate(was)]
+        if now != want:
+            return fail(k, op, 'syncUpdate did not write exactly the queued assignments', kind='sync_update', expected=want, actual=now)
+        if queued(v1):
+            return fail(k, op, 'syncUpdate returned and left assignments queued', kind='sync_update', instance=v1)
+        if not q0 and cur['log']:
+            return fail(k, op, 'syncUpdate with nothing queued sent a statement', kind='sync_update', log=cur['log'])
+    # ---- a statement the UNIQUE column refuses changes nothing: the transaction keeps what it did and stays open
+    if out == ['exc', 'EDuplicate']:
+        if not cfg.get('uniq'):
+            return fail(k, op, 'DuplicateEntryError without a UNIQUE column', kind='refused_statement')
+        if cur['committed'] != before['committed']:
+            return fail(k, op, 'a refused statement changed the committed table', kind='refused_statement')
+        if side == 'T':
+            want = before['pending'] if before['pending'] is not None else before['committed']
+            if cur['tobs'] or cur['pending'] != want:
+                return fail(k, op, 'a statement refused inside the transaction lost what the transaction had done, or ended it',
+                            kind='refused_statement', expected=want, actual=cur['pending'], tobs=cur['tobs'])
+        elif cur['pending'] != before['pending']:
+            return fail(k, op, "a statement refused on the parent connection touched the transaction's view", kind='refused_statement')
+        # ... and it is refused for a reason: the value is taken by another row of the view of that connection
+        rows = view_rows(before, side)
+        if t == 'create':
+            taken = op[4] is not None and any(r[1] == op[4] for r in rows.values())
+        else:
+            v0 = before['slots'][op[1]]
+            newb = op[3] if (t == 'set' and op[2] == 1) else queued(v0).get(1)
+            taken = newb is not None and v0[1] in rows and any(r[1] == newb for i, r in rows.items() if i != v0[1])
+        if not taken:
+            return fail(k, op, 'a statement was refused although no other row carries that value', kind='refused_statement')
     # ---- invisible until commit: a transaction-side operation other than commit changes nothing the parent can see
     if side == 'T' and t != 'commit':
         if cur['committed'] != before['committed']:
@@ -630,7 +741,10 @@ def judge(k, op, before, cur, created_in_tx):
             if [i for i, _ in out[1][1]] != sorted(rows1):
                 return fail(k, op, 'a parent-side select does not return the committed rows', kind='parent_read',
                             expected=sorted(rows1), actual=[i for i, _ in out[1][1]])
-            if op[3] is not None and cur['slots'][-1] is not None and not (fresh(cur['slots'][-1], rows1) and len(cached(cur['slots'][-1])) == 2):
+            # (an instance with assignments queued is handed out as it is -- the fetched row does not overwrite the queue --, so
+            # the select says nothing new about it)
+            if op[3] is not None and cur['slots'][-1] is not None and not queued(cur['slots'][-1]) and not (
+                    fresh(cur['slots'][-1], rows1) and len(cached_all(cur['slots'][-1])) == 2):
                 return fail(k, op, 'an instance returned by a parent-side select does not show its committed row', kind='parent_read')
         if t == 'count' and out[0] == 'ret' and out[1][1] != len(rows1):
             return fail(k, op, 'a parent-side count differs from the committed table', kind='parent_read',
@@ -640,22 +754,22 @@ def judge(k, op, before, cur, created_in_tx):
                 return fail(k, op, 'parent-side get raises not-found for a committed row', kind='parent_read')
             if out[0] == 'ret' and out[1][2] is None and op[3] not in rows1 and not was_cached(before, 'P', op[3]):
                 return fail(k, op, 'parent-side get returns a row that is not committed', kind='parent_read')
+    if side == 'P' and t == 'read':
+        v0 = before['slots'][op[1]]
+        if op[2] not in cached_all(v0):          # a reload
+            r = rows1.get(v0[1])
+            want = ['exc', 'ENotFound'] if r is None else ['ret', ['val', queued(v0).get(op[2], r[op[2]])]]
+            if out != want:
+                return fail(k, op, 'a parent-side instance reloads something else than the committed row', kind='parent_read',
+                            expected=want, actual=out)
+        elif out != ['ret', ['val', cached_all(v0)[op[2]]]]:
+            return fail(k, op, 'a read does not return the cached attribute', kind='harness_assumption')
     # ---- a row that does not exist raises not-found -- also the next time: the failed get leaves nothing behind that a
     #      later get of that id would hand out
     if t == 'get' and not op[2] and side in ('P', 'T') and out == ['exc', 'ENotFound']:
         if was_cached(cur, side, op[3]) and not was_cached(before, side, op[3]):
             return fail(k, op, 'a get that raised not-found left an instance of that id in the cache: the next get will hand it out',
                         kind='phantom_after_not_found')
-        if t == 'read':
-            v0 = before['slots'][op[1]]
-            if op[2] not in cached(v0):          # a reload
-                r = rows1.get(v0[1])
-                want = ['exc', 'ENotFound'] if r is None else ['ret', ['val', r[op[2]]]]
-                if out != want:
-                    return fail(k, op, 'a parent-side instance reloads something else than the committed row', kind='parent_read',
-                                expected=want, actual=out)
-            elif out != ['ret', ['val', cached(v0)[op[2]]]]:
-                return fail(k, op, 'a read does not return the cached attribute', kind='harness_assumption')
     # ---- the write lock goes with the uncommitted changes: without them the parent connection can write
     if side == 'P' and out == ['exc', 'EOperational'] and before['pending'] is None:
         return fail(k, op, 'a parent-side write was refused although the transaction holds no uncommitted change', kind='lock_leak')
@@ -695,11 +809,12 @@ def judge(k, op, before, cur, created_in_tx):
                             slot=h, instance=v1, row=rows1.get(v1[1]))
     # ---- a finished transaction refuses use
     if side == 'T' and before['tobs'] and t not in ('begin', 'commit', 'rollback', 'drop', 'cull', 'expire'):
-        needs = t in ('create', 'select', 'count', 'set', 'destroy', 'sync')
+        needs = t in ('create', 'select', 'count', 'destroy', 'sync') or (t == 'set' and not cfg.get('lazy')) or \
+            (t == 'syncupdate' and bool(queued(before['slots'][op[1]])))
         if t == 'get':
             needs = op[2] or not was_cached(before, 'T', op[3])
         if t == 'read':
-            needs = op[2] not in cached(before['slots'][op[1]])
+            needs = op[2] not in cached_all(before['slots'][op[1]])
         if needs and out != ['exc', 'EAssertion']:
             return fail(k, op, 'a finished transaction accepted an operation that needs the database', kind='obsolete_used', actual=out)
         if cur['committed'] != before['committed'] or cur['pending'] is not None:
@@ -733,8 +848,10 @@ def classify(case, obs, f):
     if kind in ('commit_raised', 'rollback_raised'):
         return None          # expire_raises_on_attributeless_instance is fixed (1aded16): commit/rollback must not raise
     v = before['slots'][f['slot']]
-    if v[3] and cached(v):
-        return None          # flagged expired yet caching: expire_skips_flagged_instance, fixed in 3f1b5b1
+    if v[3] and cached(v) and not case['cfg'].get('lazy'):
+        # flagged expired yet caching: expire_skips_flagged_instance, fixed in 3f1b5b1 (an eager assignment on a flagged instance
+        # caches nothing).  A lazyUpdate instance does cache what it queues, flagged or not, and keeps it after syncUpdate
+        return None
     if not v[5]:
         # the findings are about instances that an expire() -- explicit, or of a commit / rollback, or the purge of a
         # destroySelf / the registration of a re-used id -- REMOVED from their cache; the harness saw when that happened
@@ -798,13 +915,19 @@ def key(case):
 
 def distribution(cases, obs):
     d = {'ops': {}, 'outcomes': {}, 'cache': {'True': 0, 'False': 0}, 'commit_with_changes': 0, 'rollback_with_changes': 0,
-         'parent_write_locked': 0, 'use_after_finish': 0, 'lengths': {}, 'auto_cull_configs': 0}
+         'parent_write_locked': 0, 'use_after_finish': 0, 'lengths': {}, 'auto_cull_configs': 0,
+         'lazy_configs': 0, 'uniq_configs': 0, 'commit_with_dirty_parent_instance': 0, 'commit_with_dirty_parent_instance_of_changed_row': 0,
+         'refused_in_transaction_with_earlier_work': 0, 'refused_on_parent': 0, 'sync_updates_written': 0}
     for c, o in zip(cases, obs):
         if not isinstance(o, dict) or 'steps' not in o:
             continue
         d['cache'][str(bool(c['cfg']['cache']))] += 1
         if c['cfg']['freq'] < 100:
             d['auto_cull_configs'] += 1
+        if c['cfg'].get('lazy'):
+            d['lazy_configs'] += 1
+        if c['cfg'].get('uniq'):
+            d['uniq_configs'] += 1
         L = str(10 * (len(c['ops']) // 10))
         d['lengths'][L] = d['lengths'].get(L, 0) + 1
         prev = INITIAL
@@ -815,6 +938,20 @@ def distribution(cases, obs):
             d['outcomes'][oc] = d['outcomes'].get(oc, 0) + 1
             if op[0] == 'commit' and prev['pending'] is not None:
                 d['commit_with_changes'] += 1
+            if op[0] == 'commit' and not prev['tobs']:
+                dirty = [v for v in prev['slots'] if v is not None and v[0] == 'P' and not v[4] and queued(v)]
+                if dirty:
+                    d['commit_with_dirty_parent_instance'] += 1
+                    if prev['pending'] is not None and any(rowmap(prev['pending']).get(v[1]) != rowmap(prev['committed']).get(v[1]) for v in dirty):
+                        d['commit_with_dirty_parent_instance_of_changed_row'] += 1
+            if s['out'] == ['exc', 'EDuplicate']:
+                sd = op_side(op, prev)
+                if sd == 'T' and prev['pending'] is not None and prev['pending'] != prev['committed']:
+                    d['refused_in_transaction_with_earlier_work'] += 1
+                elif sd == 'P':
+                    d['refused_on_parent'] += 1
+            if op[0] == 'syncupdate' and s['out'][0] == 'ret' and s['log']:
+                d['sync_updates_written'] += 1
             if op[0] == 'rollback' and prev['pending'] is not None:
                 d['rollback_with_changes'] += 1
             if s['out'] == ['exc', 'EOperational']:
